@@ -4,6 +4,9 @@ package main
 
 import (
 	"regexp"
+
+	"golang.org/x/tools/go/ssa"
+	"golang.org/x/tools/go/ssa/ssautil"
 	"go/constant"
 	"encoding/json"
 	"flag"
@@ -623,6 +626,22 @@ func (e *Engine) ProvePin(pd *ConstPin) *ProofResult {
 	p := e.newProof(nil)
 	p.fname = sp.Pkg.Name() + ".const:" + pd.Name
 	res := &ProofResult{Func: p.fname, File: pd.File, Line: pd.Line, proof: p}
+	if strings.HasPrefix(pd.Name, "callers:") {
+		target := strings.TrimPrefix(pd.Name, "callers:")
+		got := e.callersOf(pd.Pkg, target)
+		goal := False()
+		desc := "the functions calling " + target + " are exactly: " + pd.Lit
+		if got == pd.Lit {
+			goal = True()
+		} else {
+			desc += " (found: " + got + ")"
+		}
+		o := &Obligation{Name: p.fname, Kind: "const", Guard: True(), Goal: goal, Desc: desc, Fn: p.fname}
+		o.Pos.Filename, o.Pos.Line = pd.File, pd.Line
+		p.obligations = append(p.obligations, o)
+		res.Obligations = p.obligations
+		return res
+	}
 	obj := sp.Pkg.Scope().Lookup(pd.Name)
 	goal := False()
 	desc := "constant " + pd.Name + " == " + pd.Lit
@@ -640,4 +659,59 @@ func (e *Engine) ProvePin(pd *ConstPin) *ProofResult {
 	p.obligations = append(p.obligations, o)
 	res.Obligations = p.obligations
 	return res
+}
+
+// callersOf lists (sorted, comma separated) the functions of the loaded non-library packages that
+// contain a static call of pkg.name; any other reference to the function (as a value) adds "(value)".
+func (e *Engine) callersOf(pkg, name string) string {
+	set := map[string]bool{}
+	isTarget := func(f *ssa.Function) bool {
+		return f != nil && f.Pkg != nil && f.Pkg.Pkg.Path() == pkg && e.funcDisplayNameShort(f) == name
+	}
+	for fn := range ssautil.AllFunctions(e.prog) {
+		if fn.Pkg == nil || e.spkgs[fn.Pkg.Pkg.Path()] == nil {
+			if fn.Parent() == nil {
+				continue
+			}
+		}
+		for _, b := range fn.Blocks {
+			for _, in := range b.Instrs {
+				var callee *ssa.Function
+				if ci, ok := in.(ssa.CallInstruction); ok {
+					callee = ci.Common().StaticCallee()
+					if isTarget(callee) {
+						set[e.funcDisplayNameShort(fn)] = true
+					}
+				}
+				for _, op := range in.Operands(nil) {
+					if op == nil || *op == nil {
+						continue
+					}
+					if f, ok := (*op).(*ssa.Function); ok && isTarget(f) {
+						if ci, isCall := in.(ssa.CallInstruction); isCall && ci.Common().Value == f {
+							continue
+						}
+						set["(value)"] = true
+					}
+				}
+			}
+		}
+	}
+	var names []string
+	for n := range set {
+		names = append(names, n)
+	}
+	sort.Strings(names)
+	return strings.Join(names, ",")
+}
+
+func (e *Engine) funcDisplayNameShort(f *ssa.Function) string {
+	n := e.funcDisplayName(f)
+	if i := strings.Index(n, "."); i >= 0 && f.Signature.Recv() == nil {
+		return n[i+1:]
+	}
+	if i := strings.Index(n, "."); i >= 0 {
+		return n[i+1:]
+	}
+	return n
 }
